@@ -459,6 +459,11 @@ def unmarshalerImports (cfg : Config) (vs : List Validator) : GenM Unit := do
 def jsonKind : Json → String
   | .null => "interface{}" | .str _ => "string" | .num _ => "float64" | .bool _ => "bool" | _ => "?"
 
+/-- `encoding/json.isValidTag` on ASCII names, plus the two special spellings -/
+def tagNameOK (name : String) : Bool :=
+  name ≠ "" && name ≠ "-" &&
+  name.toList.all (fun c => c.isAlphanum || "!#$%&()*+-./:;<=>?@[]^_{|}~ ".toList.contains c)
+
 def mkTags (cfg : Config) (name : String) (required : Bool) : String :=
   " ".intercalate (cfg.tags.map fun tg => if required then s!"{tg}:\"{name}\"" else s!"{tg}:\"{name},omitempty\"")
 
@@ -633,6 +638,9 @@ mutual
       match alookup name n.props with
       | none => addStructFields cfg doc f t scope rest unique fs ms req
       | some prop =>
+        -- encoding/json ignores a tag name that is empty, "-" or contains characters outside its tag alphabet
+        -- (then the Go field name is the key, or the field is skipped): outside the modelled domain
+        if !(tagNameOK name) then throw (.unsupported "property-name-not-a-valid-json-tag-name")
         let isRequired := n.required.contains name
         let baseName ← identifierizeM cfg name
         if let some ext := prop.node.ext then
